@@ -156,7 +156,10 @@ class String(Object, str):
 
     def __new__(cls, s=None, brackets=None):
         value = super().__new__(cls, s)
-        if brackets is not None and f"]{brackets}]" in value:
+        if brackets is not None and f"]{brackets}]" in value + f"]{brackets}":
+            # The appended `]{brackets}` catches content whose tail would
+            # combine with the closing delimiter to end the string early,
+            # as in `#[[a]]]`.
             raise ValueError(f"Syntactically illegal bracket string: {s!r}")
         value.brackets = brackets
         return value
